@@ -899,7 +899,8 @@ lys_compile_type_range(struct lysc_ctx *ctx, const struct lysp_restr *range_p, L
             LY_CHECK_GOTO(ret = range_part_minmax(ctx, part, 0, 0, basetype, 1, length_restr, frdigits, base_range, NULL), cleanup);
             part->max_64 = part->min_64;
         } else if (*expr == '|') {
-            if (!parts || range_expected) {
+            if (!parts || range_expected || (parts_done == LY_ARRAY_COUNT(parts))) {
+                /* nothing before the first '|', after ".." or between two '|' */
                 LOGVAL(ctx->ctx, LYVE_SYNTAX_YANG,
                         "Invalid %s restriction - unexpected beginning of the expression (%s).", length_restr ? "length" : "range", expr);
                 ret = LY_EVALID;
